@@ -2,6 +2,7 @@ package scen
 
 import (
 	"context"
+	"errors"
 	"fmt"
 	"strings"
 	"sync"
@@ -27,12 +28,20 @@ type c07p struct {
 	// by one, each hand-over a scheduling point) and opens for good after the last one;
 	// tokens == 0: the releaser opens the gate once.
 	tokens int
+	// unbuf: the done channels of non-empty batches cannot take an answer until their receiver
+	// has arrived: a capacity-1 channel that still holds an older value which the receiver
+	// takes out first (with a truly unbuffered channel the hand-over and the receiver's
+	// bookkeeping are two steps, which would blur "has been answered")
+	unbuf bool
 }
 
 func (p c07p) name() string {
 	n := fmt.Sprintf("rows%d-%s-gate_%s-ib%d", p.rows, p.second, p.gate, p.ib)
 	if p.first != "" {
 		n += "-first_" + strings.ReplaceAll(p.first, " ", "") + fmt.Sprintf("-tok%d", p.tokens)
+	}
+	if p.unbuf {
+		n += "-unbuf"
 	}
 	return n
 }
@@ -44,7 +53,12 @@ type c07batch struct {
 	done     chan error
 	got      vapi.Cell[error]
 	recvd    vapi.Counter
+	// stale: the done channel was handed to the engine full (see c07p.unbuf)
+	stale      bool
+	staleTaken vapi.Cell[bool]
 }
+
+var errStale = errors.New("older value left in the caller's channel")
 
 func c07Root(p c07p) func() {
 	return func() {
@@ -73,6 +87,10 @@ func c07Root(p c07p) func() {
 		ctx := context.Background()
 		mk := func(name string, n int) *c07batch {
 			b := &c07batch{name: name, nonEmpty: n > 0, done: make(chan error, 1)}
+			if p.unbuf && n > 0 {
+				b.done <- errStale
+				b.stale = true
+			}
 			for i := 0; i < n; i++ {
 				b.ids = append(b.ids, fmt.Sprintf("%s%d", name, i))
 			}
@@ -107,7 +125,14 @@ func c07Root(p c07p) func() {
 			}
 			return rows
 		}
-		answered := func(b *c07batch) bool { return b.recvd.Load() > 0 || len(b.done) > 0 }
+		answered := func(b *c07batch) bool {
+			if b.stale {
+				if t, _ := b.staleTaken.Get(); !t {
+					return false // the channel still holds the older value: nothing can have been delivered
+				}
+			}
+			return b.recvd.Load() > 0 || len(b.done) > 0
+		}
 		// barrier: everything accepted before `call` (a log line) must already be answered,
 		// and what was answered nil must be visible.
 		barrier := func(what, call string) {
@@ -141,6 +166,10 @@ func c07Root(p c07p) func() {
 		var wg sync.WaitGroup
 		receiver := func(b *c07batch) {
 			defer wg.Done()
+			if b.stale {
+				<-b.done // make room: from here on the engine's answer can be delivered
+				b.staleTaken.Set(true)
+			}
 			v := <-b.done
 			b.got.Set(v)
 			b.recvd.Add(1)
@@ -239,6 +268,9 @@ func init() {
 				{rows: 2, second: "B", gate: "Close", ib: 1},
 				// multi-step histories of one caller around a store that admits one held call at a time
 				{rows: 1, first: "A F B F", gate: "CreateFile", tokens: 2, ib: 1},
+				// unbuffered done channels: an answer is handed over only when its receiver arrives
+				{rows: 2, second: "B+Flush", ib: 2, unbuf: true},
+				{rows: 0, second: "Flush", ib: 1, unbuf: true},
 			}
 		} else {
 			for _, rows := range []int{1, 2, 0} {
@@ -248,6 +280,11 @@ func init() {
 							ps = append(ps, c07p{rows: rows, second: second, gate: gate, ib: ib})
 						}
 					}
+				}
+			}
+			for _, rows := range []int{1, 2, 0} {
+				for _, second := range []string{"B+Flush", "Flush", "B"} {
+					ps = append(ps, c07p{rows: rows, second: second, ib: 2, unbuf: true}, c07p{rows: rows, second: second, gate: "Update", ib: 1, unbuf: true})
 				}
 			}
 			ps = append(ps, c07p{rows: 1, first: "A F", second: "B+Flush", gate: "CreateFile", tokens: 2, ib: 2},
